@@ -1,6 +1,7 @@
 import Driver.Common
 import RxModel.Thr2Lock
 import RxModel.Thr2Aio
+import RxModel.Thr2Merge
 import RxModel.Thr2Timer
 open Lean Drv
 
@@ -67,6 +68,56 @@ def ambRun (j : Json) : Except String Json := do
     ("max_active", .num (JsonNumber.fromNat S.maxActive)),
     ("choice", match S.st with | none => .null | some b => .bool b)])
 
+/-- run thread `t` through one locked block: acquire, all steps, release -/
+def runBlock {σ} (S : Thr2.Sys σ Val) (t : Nat) : Thr2.Sys σ Val :=
+  let S1 := (Thr2.step S t).getD S
+  let rec go (fuel : Nat) (S : Thr2.Sys σ Val) : Thr2.Sys σ Val :=
+    match fuel with
+    | 0 => S
+    | f + 1 => if (S.thr t).holds then go f ((Thr2.step S t).getD S) else S
+  go 16 S1
+
+def stepOnce {σ} (S : Thr2.Sys σ Val) (t : Nat) : Thr2.Sys σ Val := (Thr2.step S t).getD S
+
+/-- `merge_seq`: the merge_all model run handler by handler in a given order (sequential schedule). -/
+def mergeSeq (j : Json) : Except String Json := do
+  let outer ← (← getArr j "outer").mapM fun e =>
+    match e with
+    | .arr #[.str "I", k] => do pure (Thr2.OEv.inner (← k.getNat?))
+    | .arr #[.str "E"] => pure (Thr2.OEv.err "e")
+    | .arr #[.str "C"] => pure Thr2.OEv.comp
+    | _ => throw s!"bad outer event {e.compress}"
+  let inners ← (← getArr j "inners").mapM fun l =>
+    match l with
+    | .arr ks => ks.toList.mapM fun k => match k with | .str s => kindToNotif s | _ => throw "bad kind"
+    | _ => throw "bad inner"
+  let order := (← getArr j "order").filterMap (fun x => x.getNat?.toOption)
+  let S0 : Thr2.Sys Thr2.MS Val := Thr2.init {} (Thr2.mergeProgs outer (fun k => nth inners k []))
+  -- one handler of thread t: the event decides which atomic steps / locked block it consists of
+  let handler := fun (acc : Thr2.Sys Thr2.MS Val × List Nat) (t : Nat) =>
+    let (S, pos) := acc
+    let p := nth pos t 0
+    let pos' := pos.set t (p + 1)
+    if t = 0 then
+      match outer[p]? with
+      | none => (S, pos')
+      | some (.inner k) =>
+        let replay := !(S.st.closed || S.st.added.contains k) && (Thr2.replayOf (α := Val) S.st k).isSome
+        let S1 := stepOnce S 0
+        (if replay then runBlock S1 0 else S1, pos')
+      | some _ => (runBlock S 0, pos')
+    else
+      match (nth inners (t - 1) [])[p]? with
+      | none => (S, pos')
+      | some _ =>
+        let handled := !S.st.iterm.contains (t - 1) && S.st.added.contains (t - 1)
+        let S1 := stepOnce S t
+        (if handled then runBlock S1 t else S1, pos')
+  let (S, _) := order.foldl handler (S0, List.replicate (inners.length + 1) 0)
+  pure (Json.mkObj [
+    ("calls", Json.arr (S.calls.map (fun n => Json.str (notifKind n))).toArray),
+    ("delivered", Json.arr (S.delivered.map (fun n => Json.str (notifKind n))).toArray)])
+
 /-- `aio_replay`: the asyncio model of one scheduled action under an observed schedule. -/
 def aioReplay (j : Json) : Except String Json := do
   let fl ← (do match (← getStr j "fl") with
@@ -101,6 +152,23 @@ def timerReplay (j : Json) : Except String Json := do
     ("labels", Json.arr (labels.map Json.str).toArray),
     ("started", .bool s.started), ("early", .bool s.early), ("bad", .bool s.bad)])
 
+/-- `loopn_replay`: any number of items on one event-loop thread under an observed schedule. -/
+def loopnReplay (j : Json) : Except String Json := do
+  let order := (← getArr j "order").filterMap (fun x => x.getNat?.toOption)
+  let ranks := (← getArr j "ranks").filterMap (fun x => x.getNat?.toOption)
+  let acts ← (← getArr j "sched").mapM fun a =>
+    match a with
+    | .arr #[.str "loop"] => pure Thr2LoopN.Act.loop
+    | .arr #[.str "tick", r] => do pure (Thr2LoopN.Act.tick (← r.getNat?))
+    | .arr #[.str "dispose", i] => do pure (Thr2LoopN.Act.dispose (← i.getNat?))
+    | _ => throw s!"bad action {a.compress}"
+  let c : Thr2LoopN.Cfg := ⟨order, fun i => nth ranks i 0, .flag⟩
+  let (labels, s) := Thr2LoopN.runLabels c Thr2LoopN.init acts
+  pure (Json.mkObj [
+    ("labels", Json.arr (labels.map Json.str).toArray),
+    ("started", Json.arr ((List.range ranks.length).map (fun i => Json.bool (s.started i))).toArray),
+    ("too_early", .bool s.tooEarly), ("bad", .bool s.bad)])
+
 def immOut : Thr2Timer.ImmOut → Json
   | .ranSync => .str "ran"
   | .wouldBlock => .str "wouldblock"
@@ -115,7 +183,9 @@ def immRun (j : Json) : Except String Json := do
 def handle (op : String) (j : Json) : Except String Json := do
   match op with
   | "timer_replay" => timerReplay j
+  | "loopn_replay" => loopnReplay j
   | "imm" => immRun j
+  | "merge_seq" => mergeSeq j
   | "lock_replay" => lockReplay j
   | "amb_run" => ambRun j
   | "aio_replay" => aioReplay j
